@@ -4,7 +4,7 @@ import numpy as np
 import common
 from common import cN, cZ, cnat, cbool, clist, copt, cpair
 
-PROOF_FILES = ['Proofs/Layers.v']
+PROOF_FILES = ['Proofs/Layers.v', 'Proofs/ConvT.v']
 ASSUMPTIONS = [
     'inputs and parameters are small integers held in float64, so the linear layers are exact and compared by equality; normalisation layers are compared within 1e-9 relative',
     'the reference is an independent numpy implementation of the documented formulas as direct sums (harness/c12_ref.py); the Gallina model covers Dense, 1-D Conv (all padding modes, stride, '
@@ -100,7 +100,8 @@ def gen_conv_transpose(rng):
   tk = rng.random() < 0.5
   kshape = ksz + ([cout, cin] if tk else [cin, cout])
   return {'layer': 'conv_transpose', 'x': ints(rng, [rng.randint(1, 2)] + [rng.randint(2, 4) for _ in range(nd)] + [cin]), 'kernel_size': ksz, 'kernel': ints(rng, kshape, -2, 2),
-          'bias': ints(rng, [cout]), 'use_bias': rng.random() < 0.5, 'strides': [rng.randint(1, 3) for _ in range(nd)], 'padding': rng.choice(['SAME', 'VALID']), 'transpose_kernel': tk}
+          'bias': ints(rng, [cout]), 'use_bias': rng.random() < 0.5, 'strides': [rng.randint(1, 3) for _ in range(nd)], 'padding': rng.choice(['SAME', 'VALID', 'CIRCULAR']), 'transpose_kernel': tk,
+          'kernel_dilation': [rng.choice([1, 1, 2]) for _ in range(nd)]}
 
 
 def gen_embed(rng):
